@@ -262,6 +262,10 @@ def check(F, rep, tier):
                 if o.kind == "agg": rng = mir.rv_at(g, *o.data)
             lenk = panics.okey(g, rng[2][0]) if rng else "?"
             guard = any(d[0] == "bin" and d[1] == "Gt" and pol is True and panics.okey(g, d[3]) == lenk and panics.describe_len(g, d[2])[0] == "len" for d, pol, dd in mir.guards_of(g, b2))
+            if not guard and rng:
+                # &s[..s.len().min(length)]
+                e_ = panics.describe_len(g, rng[2][0])
+                if e_[0] == "min" and any(x[0] == "len" for x in e_[1]) and len(e_[1]) == 2: guard = True
             from_arg = any("length" in str(mir.const_arg(g, t2[2][1])) for b3, t2 in g.calls() if (mir.callee(t2) or "").endswith("HashMap::<K, V, S, A>::get"))
             if guard and from_arg: rep.ok("R15.6", "%s returns s[..length] exactly when len > length" % nm, nontrivial_key=nm)
             else: rep.bad("R15.6", "length-bound-shape:" + nm, "%s: the cut to `length` is not `if len > length { &s[..length] } else { &s }` (guard %s)" % (nm, guard), g.where())
@@ -281,7 +285,16 @@ def check(F, rep, tier):
         for b2, pieces in mir.fmt_templates(pif):
             if len([p for p in pieces if isinstance(p, tuple)]) == 2 and not any(isinstance(p, str) and p for p in pieces):
                 if any(d[0] == "call" and (d[1] or "").endswith("::is_empty") and pol is False for d, pol, dd in mir.guards_of(pif, b2)): ok = True
+        if not ok:
+            # `match value.as_str() { "" => .., v => format!("{prefix}{v}") }`: the two-argument template on the arm where the value is not ""
+            for b2, pieces in mir.fmt_templates(pif):
+                if len([p for p in pieces if isinstance(p, tuple)]) == 2 and not any(isinstance(p, str) and p for p in pieces):
+                    for d, pol, dd in mir.guards_of(pif, b2):
+                        if d[0] == "call" and "PartialEq" in (d[1] or "") and pol is False:
+                            cs = [mir.const_arg(pif, a) for a in d[2][2]]
+                            if "" in cs: ok = True
         if ok: rep.ok("R15.6", "prefix_if adds the prefix exactly when the value is non-empty", nontrivial_key="prefix_if")
+        elif not mir.fmt_templates(pif): rep.undecided("R15.6", "prefix-if-shape", "prefix_if does not build its result with a format template", pif.where())
         else: rep.bad("R15.6", "prefix-if-shape", "prefix_if does not build `prefix + value` under !value.is_empty()", pif.where())
     return core.finish(rep, explanation=EXPL, assumptions=ASSUME, trusted=TRUST)
 
